@@ -21,9 +21,14 @@ class StartStagePlannerMixin:
 
     repository: WorkflowStore
 
-    def _plan_stage(self, stage: StageExecution) -> None:
+    def _plan_stage(self, stage: StageExecution) -> list[StageExecution]:
         """
         Plan the stage - build tasks and before stages.
+
+        Returns the new before-stages. They are not persisted here: the caller
+        stores them in the transaction that commits the plan, so a plan that
+        is dropped (a concurrent handler planned the stage) or cut short by a
+        crash leaves no orphan before-stages behind.
         """
         # Hydrate context with ancestor outputs
         # This ensures tasks have access to upstream data even with partial loading
@@ -98,15 +103,10 @@ class StartStagePlannerMixin:
         graph = StageGraphBuilder.before_stages(stage)
         builder.before_stages(stage, graph)
 
-        # Save any new synthetic stages
-        for s in graph.build():
-            # If not already in repository, add it
-            # (StageGraphBuilder adds to execution.stages, but we need to persist)
-            # Actually StageGraphBuilder usually just modifies the object graph.
-            # We need to explicitly store new stages.
-            # Assuming graph.build() returns new stages.
+        planned_before_stages = list(graph.build())
+        for s in planned_before_stages:
             s.execution = stage.execution  # Ensure backref
-            self.repository.add_stage(s)
 
         # Add context flags
         builder.add_context_flags(stage)
+        return planned_before_stages
